@@ -396,8 +396,12 @@ class Array(metaclass=MetaArray):
                 # args must be an array of correct dimensions
                 offsets = np.empty(shape, dtype="int64")
                 offset += items * 8
+                if hasattr(value, "shape") or hasattr(value, "_shape"):
+                    items_of = value
+                else:  # nested lists cannot be indexed with a tuple
+                    items_of = np.asarray(value, dtype=object)
                 for idx in iter_index(shape, order):
-                    extra[idx] = cls._itemtype._inspect_args(value[idx])
+                    extra[idx] = cls._itemtype._inspect_args(items_of[idx])
                     offsets[idx] = offset
                     offset += extra[idx].size
                 size = _to_slot_size(offset)
